@@ -15,7 +15,7 @@ UNITS = {'fs': dict(wrap='wrap.cc', new_block=64),
                        cuts=[r'^_ZN5phosg8io_errorC1EiRKNSt7__cxx1112basic_string'],
                        src_subst={'Filesystem.cc': [(r'0x100', 'VERIF_FGETS_BLOCK', [1, 2]), (r'0xFF', '(VERIF_FGETS_BLOCK - 1)', [0, 1])]}),
          'fsx': dict(wrap='wrap.cc', new_block=64, cuts=[r'^_ZN5phosg16cannot_open_fileC1ERKNSt7__cxx1112basic_string'])}
-BOUNDS = ('read_all(fd)/read_all(FILE*): internal block size 4 (source: 16384, replaced by src_subst), source length 0..9 bytes (quick 0..5 / 0..8), '
+BOUNDS = ('read_all(fd)/read_all(FILE*): internal block size 4 (source: 16384, replaced by src_subst), source length 0..7 bytes for read_all(fd) (quick 0,2,5) and 0..9 for read_all(FILE*) (quick 0,3,4,5,8), '
           'symbolic contents, every chunking in which each read() returns 1..min(requested, remaining) bytes, read fault at any call; '
           'phosg::fgets: internal block size 8 (source: 256, replaced by src_subst), line lengths {0,1,5,6,7,8,9,13,14} with/without newline, '
           'symbolic line bytes (no NUL), ::fgets failure at call 0/1 in dedicated cells; readx/writex/preadx/pwritex/freadx/fwritex/read/fread: '
@@ -55,14 +55,14 @@ def queries(tier):
                            desc='%s with requested size %d against an OS call returning any count in [-1,size]' % (nm, S),
                            bounds='size == %d, one OS call, symbolic contents' % S))
     for n in ([1, 2, 3] if tier == 'quick' else [1, 2, 3, 4]):
-        qs.append(dict(name='poll_ops%d' % n, unit='fs', harness='h_poll.c', defs={'NOPS': n}, unwind=42, timeout=900, mem_gb=3, flags=FS0,
+        qs.append(dict(name='poll_ops%d' % n, unit='fs', harness='h_poll.c', defs={'NOPS': n}, unwind=42, timeout=900, mem_gb=(3 if n < 4 else 9), flags=FS0,
                        desc='Poll: every history of %d add/remove operations over fds {3,4,5}, symbolic event masks, vs a map model; poll_fds sorted and duplicate-free after every operation' % n,
                        bounds='%d operations, 3 descriptors' % n))
     for n in ([1, 2, 3] if tier == 'quick' else [1, 2, 3, 4]):
         qs.append(dict(name='sfd_ops%d' % n, unit='fsx', harness='h_sfd.c', defs={'NOPS': n}, unwind=40, timeout=900, mem_gb=3, flags=FS0,
                        desc='scoped_fd: every sequence of %d operations (10 kinds, 2 objects, open may fail) vs an ownership model; every descriptor handed out is closed exactly once' % n,
                        bounds='%d operations, 2 objects' % n))
-    for S in ([0, 2, 5] if tier == 'quick' else range(0, 10)):
+    for S in ([0, 2, 5] if tier == 'quick' else range(0, 8)):  # S = 8, 9 (vector<string> of 3 blocks, 160-byte heap blocks): out of 13 GB
         qs.append(dict(name='readall_fd_rs4_len%d' % S, unit='fsrs4' if S < 8 else 'fsrs4b', harness='h_readall.c', defs={'S': S, 'RS': 4}, unwind=max(S, 4) + 4, timeout=1500, mem_gb=(7 if S < 6 else 13), flags=FS0, backend='cadical',
                        desc='read_all(fd) over a %d-byte symbolic source delivered in every possible chunking (each read returns 1..remaining bytes, then 0), optional read fault: result == source or io_error' % S,
                        bounds='source length == %d; <= %d read calls' % (S, S + 2)))
